@@ -186,7 +186,7 @@ def default_value(p):
     if p["kind"] in STR_KINDS:
         return d.strip('"')
     k = TYPES[p["T"]]["k"]
-    return (d == "true") if k == "b" else (float(d) if k == "r" else int(d))
+    return (d in ("true", "1")) if k == "b" else (float(d) if k == "r" else int(d))
 
 
 def fin(z):
@@ -204,7 +204,7 @@ def sub(d, k):
 def param_decl(p):
     k, T, n = p["kind"], p.get("T"), p["name"]
     if k == "val":
-        return "%s %s" % (T, n)
+        return "%s %s" % (p.get("spell") or T, n)      # spell: typedef name written in the declaration
     if k == "implied":
         return "%s %s +implied(size(%s))" % (T, n, p["of"])
     if k == "ptr_in":
@@ -263,7 +263,7 @@ def ret_decl(r):
     if k == "void":
         return "void", ""
     if k == "val":
-        return r["T"], ""
+        return r.get("spell") or r["T"], ""
     if k == "cstr":
         return "const char *", ""
     if k == "cstr_len":
@@ -319,10 +319,30 @@ def func_decl(f, cxx_only=False):
     return s
 
 
+def library_typedefs(lib):
+    """[(namespace or None, name, underlying type)] declared by the functions of the library, global ones first."""
+    seen = []
+    for f in lib["functions"]:
+        for t in f.get("typedefs") or []:
+            if tuple(t) not in seen:
+                seen.append(tuple(t))
+    return sorted(seen, key=lambda t: t[0] is not None)
+
+
 def library_yaml(lib):
     """lib = {"name","language","functions":[...],"classes":{name:[funcs]},"options":{},"format":{}, "namespace": str|None}"""
     decls = []
     done_cls = set()
+    for ns_, nm_, T_ in library_typedefs(lib):
+        e = {"decl": "typedef %s %s" % (T_, nm_)}
+        if ns_:
+            blk = next((b for b in decls if b["decl"] == "namespace %s" % ns_), None)
+            if blk is None:
+                blk = {"decl": "namespace %s" % ns_, "declarations": []}
+                decls.append(blk)
+            blk["declarations"].append(e)
+        else:
+            decls.append(e)
     for f in lib["functions"]:
         if f.get("cls"):
             if f["cls"] in done_cls:
@@ -642,6 +662,9 @@ def library_sources(lib):
         if not any(f.get("cls") == c and f.get("dtor") for f in lib["functions"]):
             h.append("    ~%s();" % c)
         h.append("    long serial;\n    unsigned long long digest;\n};")
+    for ns_, nm_, T_ in library_typedefs(lib):
+        d_ = "typedef %s %s;" % (TYPES[T_]["c"], nm_)
+        h.append("namespace %s { %s }" % (ns_, d_) if ns_ else d_)
     if lang == "c":
         h.append("#ifdef __cplusplus\nextern \"C\" {\n#endif")
     for f in lib["functions"]:
